@@ -955,6 +955,8 @@ class Program:
                 k, p = self.lookup_name(ann.id, fi, m)
                 if k == "assign":
                     return frozenset({("cb", ALIAS_CATEGORY[ann.id])})
+            if ann.id == "Self" and fi is not None and fi.cls is not None:
+                return frozenset({("cls", fi.cls.qual)})  # typing.Self (PEP 673): the enclosing class
             if ann.id in ("Any", "object", "T"):
                 return ANY
             k, p = self.lookup_name(ann.id, fi, m)
